@@ -35,6 +35,10 @@ class CountingStream:
         self._tick()
         return self.inner.readline()
 
+    def __getattr__(self, name):
+        # everything else (seek, tell, seekable, readinto, fileno ...) behaves exactly as on the wrapped object
+        return getattr(self.inner, name)
+
 
 class RecordingStream:
     """File-like read(n)/readline() over `data` that logs every call and injects faults.
@@ -148,6 +152,12 @@ class RecordingStream:
             if fault:
                 self.callers["F:" + fault + ":" + c] = self.callers.get("F:" + fault + ":" + c, 0) + 1
         return out
+
+    def readinto(self, b):
+        """file-like readinto with the same fault semantics as read()."""
+        out = self.read(len(b))
+        b[: len(out)] = out
+        return len(out)
 
     @property
     def exhausted(self):
